@@ -30,6 +30,24 @@ ASSUMPTIONS = [
 MAXI = sys.maxsize
 
 
+class _Box:
+    """A list element with value equality but its own identity."""
+
+    __slots__ = ("v",)
+
+    def __init__(self, v):
+        self.v = v
+
+    def __eq__(self, o):
+        return isinstance(o, _Box) and self.v == o.v
+
+    def __hash__(self):
+        return hash(self.v)
+
+    def __repr__(self):
+        return f"<{self.v!r}>"
+
+
 def make_source(desc):
     from geneticengine.random.sources import NativeRandomSource
     from geneticengine.representations.grammatical_evolution.ge import ListWrapper as GEWrapper
@@ -109,27 +127,36 @@ def check_call(src, twin, call, rec, kind):
         if ws[0] == 0:
             rec.nontrivial(("cw", kind, tuple(ws), v))
     elif op == "shuffle":
-        xs = list(call[1])
+        # elements are distinct objects that may compare equal: judged by identity
+        xs = [_Box(x) for x in call[1]]
         out = src.shuffle(list(xs))
-        out2 = twin.shuffle(list(xs))
-        if out is None or Counter(out) != Counter(xs) or len(out) != len(xs):
-            rec.fail(f"C18/{site}/shuffle-not-a-permutation", f"shuffle({xs}) -> {out!r}")
-        if out != out2:
+        out2 = twin.shuffle([_Box(x) for x in call[1]])
+        if out is None or sorted(map(id, out)) != sorted(map(id, xs)):
+            rec.fail(f"C18/{site}/shuffle-not-a-permutation", f"shuffle({xs}) -> {out!r} (as objects)")
+        elif [b.v for b in out] != [b.v for b in out2]:
             rec.fail(f"C18/{site}/same-seed-different-stream", f"shuffle -> {out!r} vs twin {out2!r}")
     elif op == "pop_random":
-        xs = list(call[1])
+        # elements are distinct objects that may compare equal (duplicate individuals, 1 / True /
+        # 1.0): "removes exactly the returned element" is judged by identity
+        xs = [_Box(x) for x in call[1]]
         work = list(xs)
-        work2 = list(xs)
+        work2 = [_Box(x) for x in call[1]]
         v = src.pop_random(work)
         v2 = twin.pop_random(work2)
-        exp = Counter(xs)
-        if v not in xs:
+        if not any(v is x for x in xs):
             rec.fail(f"C18/{site}/pop_random-not-a-member", f"pop_random({xs}) -> {v!r}")
         else:
-            exp[v] -= 1
-            if +exp != +Counter(work) or len(work) != len(xs) - 1:
-                rec.fail(f"C18/{site}/pop_random-remainder-wrong", f"pop_random({xs}) -> {v!r}, remainder {work}")
-        if (v, work) != (v2, work2):
+            left = sorted(id(x) for x in xs if x is not v)
+            if sorted(map(id, work)) != left:
+                pos = [i for i, x in enumerate(xs) if x is v]
+                gone = [i for i, x in enumerate(xs) if not any(x is w for w in work)]
+                rec.fail(
+                    f"C18/{site}/pop_random-remainder-wrong",
+                    f"pop_random({xs}) returned the element at position {pos} but the list lost the element(s) at position(s) {gone}; remainder {work}",
+                )
+            if len(set(call[1])) < len(call[1]):
+                rec.nontrivial(("pop-dup", kind, tuple(call[1]), repr(v)))
+        if (getattr(v, "v", v), [b.v for b in work]) != (getattr(v2, "v", v2), [b.v for b in work2]):
             rec.fail(f"C18/{site}/same-seed-different-stream", f"pop_random -> {v!r} vs twin {v2!r}")
     else:
         raise ValueError(call)
